@@ -111,7 +111,7 @@ pub fn run_history(h: &History, which: Oracles, prop: &str) -> Result<RunStats, 
     };
     let mut st = RunStats::default();
     let fault_kind: Option<ErrKind> = h.feed.sched.fail_at.map(|(_, k)| k);
-    let bufreader = matches!(h.feed.ctor, crate::source::Ctor::BufReader(_));
+    let bufreader = matches!(h.feed.ctor, crate::source::Ctor::BufReader(_) | crate::source::Ctor::FreshBufReader(_));
     let mut panicked_before = false;
     let mut realign_seen_since_mark = false;
 
@@ -281,6 +281,14 @@ pub fn run_history(h: &History, which: Oracles, prop: &str) -> Result<RunStats, 
         }};
     }
 
+    if which.reads && log.borrow().calls != 0 {
+        bad!(
+            "read-during-construction",
+            "the source was called {} time(s) while the reader was being constructed ({}), before anything was requested",
+            log.borrow().calls,
+            h.feed.ctor.class()
+        );
+    }
     observe!(-1i64, "construction");
 
     for (i, op) in h.ops.iter().enumerate() {
